@@ -22,7 +22,7 @@ def pairUp : List String → List String
 /-- same canonicalisation as the harness: replies whose pair order comes out of a Go map -/
 def canonical (name : String) (ts : List Tok) : List String :=
   let out := ts.map fmtTok
-  let at? : Option Nat := if name == "HGETALL" then some 0 else if name == "HSCAN" then some 3 else none
+  let at? : Option Nat := if name == "HGETALL" then some 0 else if name == "HSCAN" then some 2 else none
   match at? with
   | some ix =>
     let isArr : Bool := match ts[ix]? with | some (.arr _) => true | _ => false
